@@ -4,15 +4,17 @@
 EXTENDS MCTrigger, TLCExt
 CONSTANT AllConfs
 TraceLog == ndJsonDeserialize("hist.ndjson")
-VARIABLES l, failed, bad
-tvars == <<vars, l, failed, bad>>
+VARIABLES l, failed, bad, plain      \* plain: the destination is an io.Writer only - the lines must arrive, their levels cannot be seen
+tvars == <<vars, l, failed, bad, plain>>
 ByName(n) == CHOOSE c \in AllConfs : c.name = n
 TInit == conf = (CHOOSE c \in AllConfs : TRUE) /\ held = <<>> /\ triggered = FALSE /\ out = <<>> /\ hist = <<>>
-         /\ l = 1 /\ failed = FALSE /\ bad = <<>>
+         /\ l = 1 /\ failed = FALSE /\ bad = <<>> /\ plain = FALSE
 \* the logged destination output as a sequence of <<level, line>>
 Got(e) == [i \in 1..Len(e.out) |-> <<e.out[i][1], e.out[i][2]>>]
-Guard(e) == CASE e.a = "W" -> Got(e) = WLOut(e.l, e.s) /\ e.ok
-              [] e.a = "T" -> Got(e) = TrigOut /\ e.ok
+LinesOf(s) == [i \in 1..Len(s) |-> s[i][2]]
+Same(got, want) == IF plain THEN LinesOf(got) = LinesOf(want) ELSE got = want
+Guard(e) == CASE e.a = "W" -> Same(Got(e), WLOut(e.l, e.s)) /\ e.ok
+              [] e.a = "T" -> Same(Got(e), TrigOut) /\ e.ok
               [] e.a = "C" -> Got(e) = <<>> /\ e.ok
               [] OTHER -> FALSE
 Effect(e) == CASE e.a = "W" -> WLEff(e.l, e.s) [] e.a = "T" -> TrigEff [] e.a = "C" -> CloseEff
@@ -21,8 +23,10 @@ TNext ==
   /\ l <= Len(TraceLog) /\ l' = l + 1 /\ UNCHANGED hist
   /\ LET e == TraceLog[l] IN
      IF e.a \in {"Reset", "Reset2"}      \* Reset2: the history of the companion writer that lived at the same time (same contract, own state)
-     THEN conf' = ByName(e.conf) /\ held' = <<>> /\ triggered' = FALSE /\ out' = <<>> /\ failed' = FALSE /\ UNCHANGED bad
-     ELSE IF failed THEN UNCHANGED <<conf, held, triggered, out, failed, bad>>
+     THEN /\ conf' = ByName(e.conf) /\ held' = <<>> /\ triggered' = FALSE /\ out' = <<>> /\ failed' = FALSE /\ UNCHANGED bad
+          /\ plain' = (IF e.a = "Reset" THEN e.plain ELSE FALSE)     \* the companion always has a LevelWriter destination
+     ELSE UNCHANGED plain /\
+     IF failed THEN UNCHANGED <<conf, held, triggered, out, failed, bad>>
      ELSE IF Guard(e) THEN Effect(e) /\ UNCHANGED <<failed, bad>>
      ELSE failed' = TRUE /\ bad' = Append(bad, <<l, "">>) /\ UNCHANGED <<conf, held, triggered, out>>
 TSpec == TInit /\ [][TNext]_tvars
